@@ -395,6 +395,22 @@ class Zeroconf(QuietLogger):
             for queue in (self.out_queue, self.out_delay_queue):
                 queue.async_remove_service_records(replaced.key, replaced.server_key, shared)
                 queue.async_remove_records(outdated)
+            if replaced is not info:
+                # An address that the update takes away is withdrawn with the
+                # announcements. The cache-flush bit of the new records does not
+                # do that: it only reaches records of the same type that are
+                # more than a second old, the last address of a family has no
+                # new record of its type at all - lookups would go on resolving
+                # it for its whole TTL
+                current = set(info.dns_addresses())
+                withdrawn = [
+                    record
+                    for record in replaced.dns_addresses(override_ttl=0)
+                    if record not in current and record not in shared
+                ]
+                return asyncio.ensure_future(
+                    self._async_broadcast_service(info, _REGISTER_TIME, None, True, withdrawn)
+                )
         return asyncio.ensure_future(self._async_broadcast_service(info, _REGISTER_TIME, None))
 
     async def async_get_service_info(
@@ -420,6 +436,7 @@ class Zeroconf(QuietLogger):
         interval: int,
         ttl: Optional[int],
         broadcast_addresses: bool = True,
+        withdrawn: Optional[List[DNSRecord]] = None,
     ) -> None:
         """Send a broadcasts to announce a service at intervals."""
         for i in range(_REGISTER_BROADCASTS):
@@ -429,7 +446,11 @@ class Zeroconf(QuietLogger):
                 # The service was unregistered or replaced while it was still
                 # being announced, announcing it again would undo the goodbye
                 return
-            self.async_send(self.generate_service_broadcast(info, ttl, broadcast_addresses))
+            out = self.generate_service_broadcast(info, ttl, broadcast_addresses)
+            if withdrawn:
+                for record in withdrawn:
+                    out.add_answer_at_time(record, 0)
+            self.async_send(out)
 
     def generate_service_broadcast(
         self,
@@ -518,9 +539,14 @@ class Zeroconf(QuietLogger):
             queue.async_remove_records(withdrawn)
         # The packet is built now: the caller may register the same object
         # again, under another name, while the goodbyes are still going out
-        goodbye = asyncio.ensure_future(
-            self._async_broadcast_goodbyes(self.generate_service_broadcast(info, 0, broadcast_addresses), info.key)
-        )
+        out = self.generate_service_broadcast(info, 0, broadcast_addresses)
+        if not broadcast_addresses:
+            # The host name lives on, the addresses that only this service
+            # had do not: nobody advertises them any more
+            for record in info.dns_addresses(override_ttl=0):
+                if record not in still_used:
+                    out.add_answer_at_time(record, 0)
+        goodbye = asyncio.ensure_future(self._async_broadcast_goodbyes(out, info.key))
         # A shutdown lets the goodbyes that are still going out finish
         self._goodbye_tasks.add(goodbye)
         goodbye.add_done_callback(self._goodbye_tasks.discard)
